@@ -1327,9 +1327,13 @@ func (p *PubSub) handleAddRelay(req *addRelayReq) {
 	}
 
 	// flag used to prevent calling cancel function multiple times
+	var cancelMx sync.Mutex
 	isCancelled := false
 
 	relayCancelFunc := func() {
+		cancelMx.Lock()
+		defer cancelMx.Unlock()
+
 		if isCancelled {
 			return
 		}
